@@ -34,6 +34,8 @@ func init() {
 			{ID: "C14.12", Desc: "Delete removes only the key's file", Run: func(c *Ctx) { ruleDeleteOnlyTheKey(c, "C14.12") }, MinSites: 1},
 			{ID: "C14.13", Desc: "the listing skips files only on kind, temporary prefix or decoded key", Run: func(c *Ctx) { ruleKeysWalkConditions(c, "C14.13") }, MinSites: 1},
 			{ID: "C14.15", Desc: "keys listed by the maintenance API survive the JSON encoding", Run: func(c *Ctx) { ruleAPIListKeysUTF8(c, "C14.15") }, MinSites: 1},
+			{ID: "C14.16", Desc: "the file namer encodes the key's own bytes", Run: func(c *Ctx) { ruleFileNameFromKeyBytes(c, "C14.16") }, MinSites: 1},
+			{ID: "C14.17", Desc: "Set does not write into the caller's value buffer (the encryptor seals into a buffer of its own)", Run: func(c *Ctx) { ruleC17_3(c); renameRule(c, "C17.3", "C14.17") }, MinSites: 1},
 		},
 	})
 }
